@@ -690,6 +690,8 @@ class PipeOps(FullOps):
 
     def accumulate(self, v, node, initial=False):
         lst = self.to_list(v, "list", node)
+        if isinstance(lst, ListV) and lst.items is not None and len(lst.items) <= 8:
+            return self.accumulate_concrete(lst, node, initial)
         if isinstance(lst, ListV):
             self.pev("accumulate", node, order=repr(lst.order), initial=initial)
             w = lst.elem.poly if isinstance(lst.elem, TV) and lst.elem.poly is not None else None
